@@ -2,8 +2,10 @@ package main
 
 import (
 	"fmt"
+	"go/constant"
 	"go/token"
 	"go/types"
+	"os"
 	"sort"
 	"strings"
 
@@ -161,7 +163,9 @@ func rejectsNonEmptyQuery(p *Prog, fn *ssa.Function, fold func(ssa.Value, *PathC
 }
 
 func foldFields(vals map[*types.Var]int64) func(cond ssa.Value, c *PathCtx) (bool, bool) {
-	return func(cond ssa.Value, c *PathCtx) (bool, bool) {
+	var fold func(cond ssa.Value, c *PathCtx) (bool, bool)
+	predCache := map[*ssa.Function][2]bool{}
+	fold = func(cond ssa.Value, c *PathCtx) (bool, bool) {
 		pol := true
 		for {
 			if u, ok := cond.(*ssa.UnOp); ok && u.Op == token.NOT {
@@ -170,6 +174,69 @@ func foldFields(vals map[*types.Var]int64) func(cond ssa.Value, c *PathCtx) (boo
 				continue
 			}
 			break
+		}
+		if call, isCall := cond.(*ssa.Call); isCall {
+			// a predicate method of the structure (uri.IsSecure()): evaluated under the same fold; decided
+			// when every path returns the same constant
+			g := call.Call.StaticCallee()
+			if g == nil || g.Blocks == nil || len(g.Params) != 1 || c == nil || c.P == nil || !c.P.isLibFn(g) {
+				return false, false
+			}
+			pt := g.Params[0].Type()
+			if pp, isP := pt.Underlying().(*types.Pointer); isP {
+				pt = pp.Elem()
+			}
+			st, isS := pt.Underlying().(*types.Struct)
+			if !isS {
+				return false, false
+			}
+			owns := false
+			for f := range vals {
+				for i := 0; i < st.NumFields(); i++ {
+					if st.Field(i) == f {
+						owns = true
+					}
+				}
+			}
+			if !owns {
+				return false, false
+			}
+			res, have := predCache[g]
+			if !have {
+				var sawT, sawF, bad bool
+				q := &PathQuery{P: c.P, Fn: g, Fold: fold}
+				q.AtReturn = func(ret *ssa.Return, _ uint64, cc *PathCtx) {
+					if len(ret.Results) != 1 {
+						bad = true
+						return
+					}
+					v := cc.Resolve(ret.Results[0])
+					if k, isC := v.(*ssa.Const); isC && k.Value != nil {
+						if k.Value.ExactString() == "true" {
+							sawT = true
+						} else {
+							sawF = true
+						}
+						return
+					}
+					if bv, known := fold(v, cc); known {
+						if bv {
+							sawT = true
+						} else {
+							sawF = true
+						}
+						return
+					}
+					bad = true
+				}
+				q.Run()
+				res = [2]bool{sawT, !bad && sawT != sawF}
+				predCache[g] = res
+			}
+			if !res[1] {
+				return false, false
+			}
+			return res[0] == pol, true
 		}
 		b, ok := cond.(*ssa.BinOp)
 		if !ok || (b.Op != token.EQL && b.Op != token.NEQ) {
@@ -192,6 +259,7 @@ func foldFields(vals map[*types.Var]int64) func(cond ssa.Value, c *PathCtx) (boo
 		res := (k == cv) == (b.Op == token.EQL)
 		return res == pol, true
 	}
+	return fold
 }
 
 func runC17(r *Run) {
@@ -404,8 +472,27 @@ func runC17(r *Run) {
 				return
 			}
 			r.Analysed(nf, sf)
+			if os.Getenv("STUNLINT_DEBUGTAB") != "" {
+				debugTables(p)
+			}
 			nt, _, ok1 := switchTable(nf)
 			stt, _, ok2 := switchTable(sf)
+			ok1, ok2 = ok1 && len(nt) > 0, ok2 && len(stt) > 0
+			if !ok1 || !ok2 {
+				// general form: evaluate the functions over the finite domain (comparisons and lookups in
+				// read-only package tables)
+				var names, vals []constant.Value
+				for s, v := range want {
+					names = append(names, constant.MakeString(s))
+					vals = append(vals, constant.MakeInt64(v))
+				}
+				if !ok1 {
+					nt, _, ok1 = constFnTable(p, nf, names)
+				}
+				if !ok2 {
+					stt, _, ok2 = constFnTable(p, sf, vals)
+				}
+			}
 			if !ok1 || !ok2 {
 				tb.Violation(nf, nf.Pos(), newName+" table", "cannot extract the decision table (not a chain of equality tests on the argument): undecided")
 				return
